@@ -288,6 +288,8 @@ pub(crate) struct GroupCfg {
     pub(crate) cluster_id: Option<Ipv4Addr>,
     pub(crate) holdtime: Option<u64>,
     pub(crate) families: Vec<(Family, u8)>,
+    /// graceful restart as configured for the group: (restart time, N-bit, families)
+    pub(crate) gr: Option<(u16, bool, Vec<Family>)>,
 }
 
 #[derive(Clone, Debug, PartialEq)]
@@ -387,7 +389,7 @@ impl AdmitRig {
             connect_retry_time: None,
             families: c.families.iter().copied().collect(),
             send_max: FnvHashMap::default(),
-            graceful_restart: None,
+            graceful_restart: c.gr.clone().map(|(restart_time, notification_enabled, families)| GrPeerConfig { restart_time, notification_enabled, families }),
             llgr: None,
         };
         self.global.write().await.peer_group.insert(c.name.clone(), pg);
